@@ -113,6 +113,14 @@ def run(ctx):
         if k == 0:
             text, funcs, helpers, structs, files = ctext, cfuncs, chelpers, cstructs, cfiles
             cases.append({"id": "norecurse", "files": files, "root": "svc.thrift", "norecurse": True, "funcs": funcs[:40], "S": support})
+    # inheritance across three and four files where each file includes only its parent's file: the request must still
+    # describe every ancestor (module ids for files the generated file does not include itself)
+    chain = {"top.thrift": 'include "./mid.thrift"\nservice Top extends mid.Mid { void top(1: i32 a) }\n',
+             "mid.thrift": 'include "./sub/low.thrift"\nstruct MidArg { 1: optional i32 x }\nservice Mid extends low.Low { MidArg mid(1: MidArg a) }\n',
+             "sub/low.thrift": 'include "../base.thrift"\nservice Low extends base.BaseSvc { oneway void low() }\n',
+             "base.thrift": BASE_THRIFT}
+    for nr in (False, True):
+        cases.append({"id": "chain4-%s" % ("norecurse" if nr else "recurse"), "files": chain, "root": "top.thrift", "norecurse": nr, "funcs": [], "S": support})
     cf, of = os.path.join(ctx.dir("c19"), "cases.ndjson"), os.path.join(ctx.dir("c19"), "obs.ndjson")
     vlib.write_ndjson(cf, cases)
     vlib.run([drv, "c19", "-cases", cf, "-out", of], timeout=3000, check=True)
